@@ -48,7 +48,7 @@ type Work struct {
 	Cut     int    `json:"cut,omitempty"`      // >0: the source text handed to the interpreter ends after this many bytes (a program that arrives truncated)
 }
 
-const nSites = 118
+const nSites = 122
 const nWraps = 7
 
 func siteSrc(k int, id string) string {
@@ -294,6 +294,16 @@ func siteSrc(k int, id string) string {
 		return "it" + id + " = func() { return [h(" + id + ")] }\nfor a" + id + ", b" + id + " in it" + id + " { }\nfor a" + id + " in it" + id + " { break }"
 	case 116:
 		return "for a" + id + ", b" + id + " in [hid(1)] { }\nfor a" + id + ", b" + id + " in hid(\"str\") { }\nfor a" + id + " in hid(nil) { }\nfor k" + id + ", v" + id + " in hid(5) { }\nfor a" + id + ", b" + id + " in hf() { }"
+	// a spread call into Go functions with a fixed number of parameters
+	case 117:
+		return "x" + id + " = [" + id + ", 2]\ny" + id + " = h2(x" + id + "...)\nz" + id + " = h3([1, \"a\", nil]...)\ngo h2([3, 4]...)\ndefer h2([5, 6]...)"
+	case 118:
+		return "w" + id + " = h2([h(" + id + "), 2, 3]...)\nv" + id + " = h3(1, [2, 3]...)\nu" + id + " = h2([1]...)\nt" + id + " = h2(hid([1, 2])...)"
+	// loop variables bound to nil pointers and to entries that no longer exist
+	case 119:
+		return "for x" + id + " in make([]*int64, 2) {\ny" + id + " = [x" + id + "]\nz" + id + " = x" + id + " == nil\nh(" + id + ")\n}\nc" + id + " = make(chan *int64, 1)\nc" + id + " <- nil\nclose(c" + id + ")\nfor v" + id + " in c" + id + " { w" + id + " = {\"k\": v" + id + "} }"
+	case 120:
+		return "m" + id + " = {\"a\": 1, \"b\": 2, \"c\": h(" + id + ")}\nfor k" + id + ", v" + id + " in m" + id + " {\ndelete(m" + id + ", \"a\")\ndelete(m" + id + ", \"b\")\ndelete(m" + id + ", \"c\")\ny" + id + " = [v" + id + "]\nz" + id + " = \"\" + v" + id + "\n}"
 	default:
 		return "x" + id + " = hid(1) & hid(\"z\")\ny" + id + " = hid(1.5) | hid(nil)\nz" + id + " = hid({}) ^ 1\nw" + id + " = hid([1, 2]) + hid({\"a\": 1})\nv" + id + " = hid(nil) < hid([1])\nu" + id + " = hid(func() { }) == hid(func() { })"
 	}
@@ -496,6 +506,8 @@ func (Prop) Run(t *testing.T, c *harness.Case, verbose bool) *harness.Result {
 		e.Define("h", func(id int64) int64 { fault("h"); return id })
 		e.Define("hid", func(x interface{}) interface{} { fault("hid"); return x })
 		e.Define("hv", func(xs ...int64) int64 { fault("hv"); return int64(len(xs)) })
+		e.Define("h2", func(a, b int64) int64 { fault("h2"); return a + b })
+		e.Define("h3", func(a, b, c interface{}) interface{} { fault("h3"); return a })
 		e.Define("hE", func(id int64) (int64, error) {
 			if fault("hE") == "error-result" {
 				return 0, errors.New("host error result")
